@@ -37,6 +37,8 @@ pub enum X {
     Val(Value),
     /// `*` (inside COUNT)
     Star,
+    /// `table.*` (select item)
+    QStar(String),
     /// [NOT] EXISTS (subquery)
     Exists(bool, Box<Sel>),
     /// expr [NOT] IN (subquery)
@@ -139,6 +141,96 @@ fn is_like_kind(name: &str) -> bool {
     )
 }
 
+/// `l op r` through one of the equivalent spellings: `binary(op, ..)`, the named method of `ExprTrait`,
+/// the named method of `Expr`, the named inherent method of `SimpleExpr`, or the dialect extension trait.
+fn bin_routes(l: SimpleExpr, op: BinOper, rx: &X) -> SimpleExpr {
+    use sea_query::extension::postgres::PgExpr;
+    use sea_query::extension::sqlite::SqliteExpr;
+    let r = rx.build();
+    let which = crate::apply::route(5);
+    if which == 0 {
+        return l.binary(op, r);
+    }
+    // comparisons against a column have their own spelling
+    if which == 4 {
+        let col: Option<ColumnRef> = match rx {
+            X::Col(c) => Some(Alias::new(*c).into_column_ref()),
+            X::QCol(t, c) => Some((Alias::new(t.as_str()), Alias::new(c.as_str())).into_column_ref()),
+            _ => None,
+        };
+        match (op, col) {
+            (BinOper::Equal, Some(c)) => {
+                return if crate::apply::route(2) == 0 { Expr::expr(l).equals(c) } else { ExprTrait::equals(l, c) };
+            }
+            (BinOper::NotEqual, Some(c)) => {
+                return if crate::apply::route(2) == 0 { Expr::expr(l).not_equals(c) } else { ExprTrait::not_equals(l, c) };
+            }
+            _ => {}
+        }
+    }
+    macro_rules! named {
+        ($m:ident) => {
+            match which {
+                1 => ExprTrait::$m(l, r),
+                _ => Expr::expr(l).$m(r),
+            }
+        };
+    }
+    macro_rules! named3 {
+        ($m:ident) => {
+            match which {
+                1 => ExprTrait::$m(l, r),
+                2 => Expr::expr(l).$m(r),
+                _ => l.$m(r), // inherent method of SimpleExpr
+            }
+        };
+    }
+    match op {
+        BinOper::Equal => named3!(eq),
+        BinOper::NotEqual => named3!(ne),
+        BinOper::Add => named3!(add),
+        BinOper::Sub => named3!(sub),
+        BinOper::Mul => named3!(mul),
+        BinOper::Div => named3!(div),
+        BinOper::GreaterThan => named!(gt),
+        BinOper::GreaterThanOrEqual => named!(gte),
+        BinOper::SmallerThan => named!(lt),
+        BinOper::SmallerThanOrEqual => named!(lte),
+        BinOper::Mod => named!(modulo),
+        BinOper::LShift => named!(left_shift),
+        BinOper::RShift => named!(right_shift),
+        BinOper::Is => named!(is),
+        BinOper::IsNot => named!(is_not),
+        BinOper::And => match which {
+            1 => ExprTrait::and(l, r),
+            _ => l.and(r),
+        },
+        BinOper::Or => match which {
+            1 => ExprTrait::or(l, r),
+            _ => l.or(r),
+        },
+        BinOper::BitAnd => ExprTrait::bit_and(l, r),
+        BinOper::BitOr => ExprTrait::bit_or(l, r),
+        BinOper::PgOperator(PgBinOper::Concatenate) => {
+            if which % 2 == 0 {
+                PgExpr::concatenate(l, r)
+            } else {
+                PgExpr::concat(l, r)
+            }
+        }
+        BinOper::PgOperator(PgBinOper::Matches) => PgExpr::matches(l, r),
+        BinOper::PgOperator(PgBinOper::Contains) => PgExpr::contains(l, r),
+        BinOper::PgOperator(PgBinOper::Contained) => PgExpr::contained(l, r),
+        BinOper::PgOperator(PgBinOper::GetJsonField) => PgExpr::get_json_field(l, r),
+        BinOper::PgOperator(PgBinOper::CastJsonField) => PgExpr::cast_json_field(l, r),
+        BinOper::SqliteOperator(SqliteBinOper::Glob) => SqliteExpr::glob(l, r),
+        BinOper::SqliteOperator(SqliteBinOper::Match) => SqliteExpr::matches(l, r),
+        BinOper::SqliteOperator(SqliteBinOper::GetJsonField) => SqliteExpr::get_json_field(l, r),
+        BinOper::SqliteOperator(SqliteBinOper::CastJsonField) => SqliteExpr::cast_json_field(l, r),
+        _ => l.binary(op, r),
+    }
+}
+
 impl X {
     /// Build through sea-query's public expression API.
     pub fn build(&self) -> SimpleExpr {
@@ -163,33 +255,41 @@ impl X {
             },
             X::Null => SimpleExpr::Keyword(Keyword::Null),
             X::Bool(v) => SimpleExpr::Constant((*v).into()),
-            X::Not(e) => e.build().not(),
-            X::Bin(l, op, r) => l.build().binary(*op, r.build()),
-            X::Between(e, not, lo, hi) => {
-                if *not {
-                    ExprTrait::not_between(e.build(), lo.build(), hi.build())
-                } else {
-                    ExprTrait::between(e.build(), lo.build(), hi.build())
-                }
-            }
+            X::Not(e) => match crate::apply::route(3) {
+                0 => ExprTrait::not(e.build()),
+                1 => Expr::expr(e.build()).not(),
+                _ => e.build().not(),
+            },
+            X::Bin(l, op, r) => bin_routes(l.build(), *op, r),
+            X::Between(e, not, lo, hi) => match (*not, crate::apply::route(2)) {
+                (true, 0) => Expr::expr(e.build()).not_between(lo.build(), hi.build()),
+                (true, _) => ExprTrait::not_between(e.build(), lo.build(), hi.build()),
+                (false, 0) => Expr::expr(e.build()).between(lo.build(), hi.build()),
+                (false, _) => ExprTrait::between(e.build(), lo.build(), hi.build()),
+            },
             X::Like(e, not, pat, esc) => {
                 let op = if *not { BinOper::NotLike } else { BinOper::Like };
                 match (&**pat, esc) {
                     (X::Text(p), Some(c)) => {
                         let le = LikeExpr::new(p.as_str()).escape(*c);
-                        if *not {
-                            e.build().not_like(le)
-                        } else {
-                            e.build().like(le)
+                        // the three homes of like / not_like: SimpleExpr, Expr, ExprTrait
+                        match (*not, crate::apply::route(3)) {
+                            (true, 0) => Expr::expr(e.build()).not_like(le),
+                            (true, 1) => ExprTrait::not_like(e.build(), le),
+                            (true, _) => e.build().not_like(le),
+                            (false, 0) => Expr::expr(e.build()).like(le),
+                            (false, 1) => ExprTrait::like(e.build(), le),
+                            (false, _) => e.build().like(le),
                         }
                     }
-                    (X::Text(p), None) => {
-                        if *not {
-                            e.build().not_like(p.as_str())
-                        } else {
-                            e.build().like(p.as_str())
-                        }
-                    }
+                    (X::Text(p), None) => match (*not, crate::apply::route(3)) {
+                        (true, 0) => Expr::expr(e.build()).not_like(p.as_str()),
+                        (true, 1) => ExprTrait::not_like(e.build(), p.as_str()),
+                        (true, _) => e.build().not_like(p.as_str()),
+                        (false, 0) => Expr::expr(e.build()).like(p.as_str()),
+                        (false, 1) => ExprTrait::like(e.build(), p.as_str()),
+                        (false, _) => e.build().like(p.as_str()),
+                    },
                     (p, Some(c)) => e.build().binary(
                         op,
                         SimpleExpr::Binary(
@@ -225,21 +325,33 @@ impl X {
             }
             X::In(e, not, list) => {
                 let l: Vec<SimpleExpr> = list.iter().map(|x| x.build()).collect();
-                if *not {
-                    ExprTrait::is_not_in(e.build(), l)
-                } else {
-                    ExprTrait::is_in(e.build(), l)
+                match (*not, crate::apply::route(2)) {
+                    (true, 0) => Expr::expr(e.build()).is_not_in(l),
+                    (true, _) => ExprTrait::is_not_in(e.build(), l),
+                    (false, 0) => Expr::expr(e.build()).is_in(l),
+                    (false, _) => ExprTrait::is_in(e.build(), l),
                 }
             }
-            X::IsNull(e, not) => {
-                if *not {
-                    ExprTrait::is_not_null(e.build())
-                } else {
-                    ExprTrait::is_null(e.build())
-                }
-            }
+            X::IsNull(e, not) => match (*not, crate::apply::route(2)) {
+                (true, 0) => Expr::expr(e.build()).is_not_null(),
+                (true, _) => ExprTrait::is_not_null(e.build()),
+                (false, 0) => Expr::expr(e.build()).is_null(),
+                (false, _) => ExprTrait::is_null(e.build()),
+            },
             X::Func(name, args) => {
                 let a: Vec<SimpleExpr> = args.iter().map(|x| x.build()).collect();
+                // the aggregate shorthands of `Expr`
+                if crate::apply::route(3) == 0 {
+                    match (*name, a.len()) {
+                        ("MAX", 1) => return Expr::expr(a[0].clone()).max(),
+                        ("MIN", 1) => return Expr::expr(a[0].clone()).min(),
+                        ("SUM", 1) => return Expr::expr(a[0].clone()).sum(),
+                        ("COUNT", 1) => return Expr::expr(a[0].clone()).count(),
+                        ("COUNT_DISTINCT", 1) => return Expr::expr(a[0].clone()).count_distinct(),
+                        ("IFNULL", 2) => return Expr::expr(a[0].clone()).if_null(a[1].clone()),
+                        _ => {}
+                    }
+                }
                 match (*name, a.len()) {
                     ("ABS", 1) => Func::abs(a[0].clone()).into(),
                     ("LOWER", 1) => Func::lower(a[0].clone()).into(),
@@ -292,10 +404,15 @@ impl X {
                     (n, _) => Func::cust(Alias::new(n)).args(a).into(),
                 }
             }
-            X::Cast(e, ty) => e.build().cast_as(Alias::new(*ty)),
+            X::Cast(e, ty) => match crate::apply::route(3) {
+                0 => Expr::expr(e.build()).cast_as(Alias::new(*ty)),
+                1 => ExprTrait::cast_as(e.build(), Alias::new(*ty)),
+                _ => e.build().cast_as(Alias::new(*ty)),
+            },
             X::Case(whens, els) => {
-                let mut c = CaseStatement::new();
-                for (w, t) in whens {
+                let via_expr = !whens.is_empty() && crate::apply::route(2) == 0;
+                let mut c = if via_expr { Expr::case(whens[0].0.build(), whens[0].1.build()) } else { CaseStatement::new() };
+                for (w, t) in whens.iter().skip(via_expr as usize) {
                     c = c.case(w.build(), t.build());
                 }
                 if let Some(e) = els {
@@ -306,7 +423,17 @@ impl X {
             X::Tuple(v) => SimpleExpr::Tuple(v.iter().map(|x| x.build()).collect()),
             X::QCol(t, c) => Expr::col((Alias::new(t.as_str()), Alias::new(c.as_str()))).into(),
             X::Val(v) => SimpleExpr::Value(v.clone()),
-            X::Star => Expr::col(Asterisk).into(),
+            #[allow(deprecated)]
+            X::Star => match crate::apply::route(3) {
+                0 => Expr::asterisk().into(),
+                1 => SimpleExpr::Column(Asterisk.into_column_ref()),
+                _ => Expr::col(Asterisk).into(),
+            },
+            #[allow(deprecated)]
+            X::QStar(t) => match crate::apply::route(2) {
+                0 => Expr::table_asterisk(Alias::new(t.as_str())).into(),
+                _ => Expr::col((Alias::new(t.as_str()), Asterisk)).into(),
+            },
             X::Exists(not, s) => {
                 let e = Expr::exists(crate::apply::sel(s));
                 if *not {
@@ -316,10 +443,11 @@ impl X {
                 }
             }
             X::InSub(e, not, s) => {
-                if *not {
-                    ExprTrait::not_in_subquery(e.build(), crate::apply::sel(s))
-                } else {
-                    ExprTrait::in_subquery(e.build(), crate::apply::sel(s))
+                match (*not, crate::apply::route(2)) {
+                    (true, 0) => Expr::expr(e.build()).not_in_subquery(crate::apply::sel(s)),
+                    (true, _) => ExprTrait::not_in_subquery(e.build(), crate::apply::sel(s)),
+                    (false, 0) => Expr::expr(e.build()).in_subquery(crate::apply::sel(s)),
+                    (false, _) => ExprTrait::in_subquery(e.build(), crate::apply::sel(s)),
                 }
             }
             X::Scalar(s) => SimpleExpr::SubQuery(None, Box::new(crate::apply::sel(s).into_sub_query_statement())),
@@ -334,7 +462,7 @@ impl X {
             }
             X::InTuples(cols, rows) => {
                 let lhs = Expr::tuple(cols.iter().map(|c| c.build()));
-                lhs.in_tuples(rows.iter().map(|r| ValueTuple::Many(r.clone())))
+                lhs.in_tuples(rows.iter().map(|r| crate::apply::value_tuple(r)))
             }
             X::Kw(k) => match *k {
                 "CURRENT_TIMESTAMP" => Expr::current_timestamp().into(),
@@ -435,6 +563,7 @@ impl X {
             }
             X::QCol(t, c) => PX::Col(vec![t.clone(), c.clone()]),
             X::Star => PX::Col(vec!["*".into()]),
+            X::QStar(t) => PX::Col(vec![t.clone(), "*".into()]),
             // a custom fragment stays together as an operand: its own text parsed on its own
             X::Cust(w) => match vcore::lex::lex(d, w).ok().and_then(|t| vcore::px::parse_expr(d, &t).ok()) {
                 Some(PX::Col(c)) if c.len() == 1 && !w.contains(['"', '`']) => PX::Kw(w.clone()),
@@ -468,7 +597,7 @@ impl X {
     pub fn children(&self) -> Vec<&X> {
         match self {
             X::Col(_) | X::Int(_) | X::Text(_) | X::Null | X::Bool(_) => vec![],
-            X::QCol(..) | X::Val(_) | X::Star | X::Exists(..) | X::Scalar(_) | X::Cust(_) | X::Kw(_) => vec![],
+            X::QCol(..) | X::Val(_) | X::Star | X::QStar(_) | X::Exists(..) | X::Scalar(_) | X::Cust(_) | X::Kw(_) => vec![],
             X::InSub(e, _, _) | X::AsEnum(_, e) | X::SubOp(e, _, _, _) => vec![e],
             X::InTuples(c, _) => c.iter().collect(),
             X::CustWith(_, args, _) => args.iter().collect(),
@@ -503,7 +632,7 @@ impl X {
             X::Case(_, _) => "CASE".into(),
             X::Tuple(_) => "tuple".into(),
             X::QCol(..) => "col".into(),
-            X::Val(_) | X::Star | X::Cust(_) => "lit".into(),
+            X::Val(_) | X::Star | X::QStar(_) | X::Cust(_) => "lit".into(),
             X::Exists(..) => "EXISTS".into(),
             X::InSub(_, n, _) => if *n { "NOT IN(sub)" } else { "IN(sub)" }.into(),
             X::Scalar(_) => "(sub)".into(),
